@@ -30,8 +30,10 @@ MAX_NODES = 4000      # per tree
 MAX_DEPTH = 8         # inlining depth
 MAX_PATHS = 600       # leaves per tree
 
-COMMUTATIVE = {"Add", "Mul", "BitAnd", "BitOr", "BitXor", "Eq", "Ne", "AddUnchecked", "MulUnchecked"}
-WITH_OVERFLOW = {"AddWithOverflow": "Add", "SubWithOverflow": "Sub", "MulWithOverflow": "Mul"}
+COMMUTATIVE = {"Add", "Mul", "BitAnd", "BitOr", "BitXor", "Eq", "Ne", "AddUnchecked", "MulUnchecked", "AddChk", "MulChk"}
+# `(a op b).0` of a checked primitive operation whose overflow flag feeds an `assert` (debug builds): the value is only
+# produced when the operation does not overflow - the evaluator raises a panic outcome otherwise
+WITH_OVERFLOW = {"AddWithOverflow": "AddChk", "SubWithOverflow": "SubChk", "MulWithOverflow": "MulChk"}
 
 
 class GiveUp(Exception):
@@ -228,6 +230,9 @@ def _fold_bin(op, a, b):
         return ("K", ty, (x - y) & m)
     if op == "Mul":
         return ("K", ty, (x * y) & m)
+    if op in ("AddChk", "SubChk", "MulChk"):
+        r = x + y if op == "AddChk" else (x - y if op == "SubChk" else x * y)
+        return ("K", ty, r) if 0 <= r <= m else None
     if op == "BitAnd":
         return ("K", ty, x & y)
     if op == "BitOr":
@@ -275,6 +280,7 @@ class Summarizer:
         self._acyclic = {}
         self._stack = []
         self._taint = 1 << 30
+        self.term_inst = {}     # terminal label -> instances it stands for (guard-sensitive panic reachability)
 
     # -- public
     def summary(self, inst_idx, budget=None):
@@ -448,7 +454,17 @@ class _Eval:
             d = F.defs[c["uneval"]]
             return ("AC", F.fid(c["uneval"]), tuple(self._gsub(short(a)) for a in c.get("args", [])))
         if "param" in c:
-            return ("CP", c["param"])
+            # a const parameter of a non-identity instance is the caller's argument (cast_from::<M, N>: callee N = caller M)
+            g = self.gmap.get(c["param"])
+            if g is None:
+                return ("CP", c["param"])
+            if g.isdigit():
+                return ("K", ty, int(g))
+            if g in ("true", "false"):
+                return ("K", "bool", 1 if g == "true" else 0)
+            if g.isidentifier():
+                return ("CP", g)
+            return ("?", "const-param:" + g)
         if "v" in c:
             return ("K", ty, c["v"])
         if "zst" in c:
@@ -697,6 +713,8 @@ class _Eval:
         lab = S.label(target)
         if tinst["k"] == "unresolved":
             lab = "?" + lab
+        else:
+            S.term_inst.setdefault(lab, set()).add(target)
         return self._after_terminal(("C", lab, args), mut_targets, dest, nxt, env, mem, effects)
 
     def _after_terminal(self, cterm, mut_targets, dest, nxt, env, mem, effects):
